@@ -102,6 +102,14 @@ pub fn run_bin(bin: &Path, spec: RunSpec) -> RunOut {
     if let Some(c) = spec.cwd {
         cmd.current_dir(c);
     }
+    // a child must not outlive the harness (a killed harness once left busy-looping children behind for hours)
+    unsafe {
+        use std::os::unix::process::CommandExt;
+        cmd.pre_exec(|| {
+            libc::prctl(libc::PR_SET_PDEATHSIG, libc::SIGKILL);
+            Ok(())
+        });
+    }
     cmd.stdin(if spec.stdin.is_some() { Stdio::piped() } else { Stdio::null() });
     cmd.stdout(Stdio::piped());
     cmd.stderr(Stdio::piped());
